@@ -473,10 +473,18 @@ class SpaceTranslator(ParentTranslator):
         # To make sure to prefix refs with 'self.' that have builtin names,
         # Add dummy ref assignments to function definitions.
         # These assignments are removed by FormulaTransformer.
+        # The same goes for child spaces and for the parameters of
+        # the space and of the spaces it is in.
         lines = []
-        for k, v in space.refs.items():
-            if k[0] != '_':
-                lines.append(k + ' = None')
+        names = [k for k in space.refs if k[0] != '_']
+        names.extend(k for k in space.spaces if k[0] != '_')
+        parent = space
+        while isinstance(parent, BaseSpace):
+            if parent.parameters:
+                names.extend(parent.parameters)
+            parent = parent.parent
+        for k in dict.fromkeys(names):
+            lines.append(k + ' = None')
 
         for k, v in space.cells.items():
             src = v.formula.source
